@@ -28,7 +28,7 @@ BIND = {"t": ["set", "upd"], "q": ["pin", "slider", "ball", "vec", "sub", "fit",
         "lock": ["acc", "vel", "ball", "slider"], "con": ["rod", "pip", "ccoord", "cspeed", "cacc"],
         "bk": ["stiff", "damp"], "k": ["stiff", "qzero"],
         "c": ["damper", "mcf", "dfb", "dfm", "stop", "mdf", "custom"],
-        "g": ["mag", "dir", "zero", "excl", "vec", "off"], "gq": ["bf", "pe"], "copy": ["construct", "assign"]}
+        "g": ["mag", "dir", "zero", "excl", "vec", "vecdir", "off"], "gq": ["bf", "pe"], "copy": ["construct", "assign"]}
 # deviations: name -> profile set to model check with (small, so the counterexample is found fast)
 DEVS = ["K_PosCached", "Pos_NoReset", "G_NoExplicit", "NoPre_q", "NoPre_u", "NoCascade",
         "Inv_q", "Inv_u", "Inv_z", "Inv_t", "Inv_k", "Inv_cp", "Inv_c", "Inv_g", "Inv_disP", "Inv_disV",
